@@ -34,16 +34,19 @@ def src_hash(objs):
 
 
 def load_known():
-    """known_findings.txt lines:  finding: property=<id> key=<key> <text>   |   fixed: property=<id> <commit> <text>"""
+    """known_findings.txt lines:
+         finding: property=<id> key=<key> | <text>      (key may contain spaces; ends at ' | ')
+         fixed: property=<id> <commit> <text>           (documentation only, suppresses nothing)"""
     out = []
     p = os.path.join(VERIF, "known_findings.txt")
     if os.path.exists(p):
         for line in open(p):
             line = line.strip()
-            if line.startswith("finding:"):
-                parts = dict(kv.split("=", 1) for kv in line.split()[1:3])
-                text = line.split(None, 3)[3] if len(line.split(None, 3)) > 3 else ""
-                out.append(dict(property=parts.get("property"), key=parts.get("key"), text=text))
+            if line.startswith("finding:") and " key=" in line and " | " in line:
+                head, text = line.split(" | ", 1)
+                prop = head.split("property=", 1)[1].split()[0]
+                key = head.split(" key=", 1)[1].strip()
+                out.append(dict(property=prop, key=key, text=text))
     return out
 
 
@@ -58,6 +61,13 @@ def match_known(prop, key, known):
 def _worker(job):
     modname, inst, opts = job
     t0 = time.time()
+    import signal
+
+    def _alarm(signum, frame):
+        raise TimeoutError("instance wall-clock limit")
+    limit = int(inst.get("limit_s", os.environ.get("VERIF_INSTANCE_LIMIT", "900")))
+    signal.signal(signal.SIGALRM, _alarm)
+    signal.alarm(limit)
     try:
         sys.setrecursionlimit(20000)
         from symnum import stubs, engine, expr as X
@@ -76,8 +86,10 @@ def _worker(job):
         d["exceptions_full"] = [dict(exc=list(e["exc"]), env=_ser_env(e["env"]), tb=e.get("tb")) for e in rep.exceptions[:3]]
         d["ok"] = rep.ok()
         d["inst"] = inst
+        signal.alarm(0)
         return d
     except BaseException as ex:  # noqa
+        signal.alarm(0)
         return dict(label=inst.get("label"), inst=inst, ok=False, crashed=traceback.format_exc()[-3000:], wall_s=time.time() - t0,
                     paths=0, obligations=0, proved=0, by_normal_form=0, stats={}, witnessed={}, unknown=[], violations=[], exceptions=[],
                     violations_full=[], exceptions_full=[], samples=[], inconclusive="worker crashed: %r" % (ex,))
@@ -177,6 +189,7 @@ def finish(prop, modname, tier, seed, results, explanation, assumptions, trusted
     tot = dict(paths=0, obligations=0, proved=0, by_normal_form=0, queries=0, unsat=0, sat=0, unknown=0, solver_s=0.0)
     samples = []
     nviol = 0
+    replayed = {}    # key -> number of candidates replayed
     for r in results:
         for k in ("paths", "obligations", "proved", "by_normal_form"):
             tot[k] += r.get(k, 0) or 0
@@ -207,6 +220,9 @@ def finish(prop, modname, tier, seed, results, explanation, assumptions, trusted
                 continue
             seen_keys.add(key)
             nviol += 1
+            replayed[key] = replayed.get(key, 0) + 1
+            if replayed[key] > 2:
+                continue   # same harness key + obligation already confirmed/replayed twice
             path = os.path.join(VERIF, "replays", "%s-%s.json" % (prop, hashlib.sha1((r["label"] + c["obligation"]).encode()).hexdigest()[:10]))
             rec = dict(property=prop, module=modname, inst=r["inst"], key=key, **c)
             json.dump(rec, open(path, "w"), indent=1, default=str)
@@ -249,8 +265,12 @@ def finish(prop, modname, tier, seed, results, explanation, assumptions, trusted
     ev = dict(property_id=prop, tier=tier, seed=int(seed), level="other", coverage=cov, assumptions=assumptions,
               wall_s=round(wall, 2), violations=len(violations))
     json.dump(ev, open(os.path.join(VERIF, "evidence", "%s.json" % prop), "w"), indent=1, default=str)
+    shown = set()
     for kf, key, path in known_hits:
-        print("KNOWN-FINDING: property=%s %s [%s] replay=%s" % (prop, kf["text"], key, path))
+        if key in shown:
+            continue
+        shown.add(key)
+        print("KNOWN-FINDING: property=%s %s [key=%s, %d instance(s)] replay=%s" % (prop, kf["text"], key, replayed.get(key, 1), path))
     for key, path, c in violations:
         print("VIOLATION property=%s replay=%s" % (prop, path))
         print("  key=%s obligation=%s" % (key, c["obligation"]))
